@@ -468,6 +468,30 @@ class C17(core.Check):
             d['text'] = repr(bytes(bytearray(case['b'])))
         return d
 
+    def undescribe(self, d):
+        return {k: v for k, v in d.items() if k not in ('canonical_text', 'text')}
+
+    def shrink_candidates(self, case):
+        """keep cases self-consistent: item lists lose items, byte strings lose bytes, rendered grammar text
+        (itext) is not shrunk."""
+        if case['k'] == 'itext':
+            return
+        key = 'items' if case['k'] in ('items', 'items_any') else 'b'
+        v = case[key]
+        n = len(v)
+        cuts = []
+        if n > 1:
+            cuts += [v[:n // 2], v[n // 2:]]
+        if n <= 40:
+            cuts += [v[:i] + v[i + 1:] for i in range(n)]
+        else:
+            step = max(1, n // 8)
+            cuts += [v[:i] + v[i + step:] for i in range(0, n, step)]
+        for c in cuts:
+            d = dict(case)
+            d[key] = c
+            yield d
+
     def oracle(self, case, out):
         """direct reading of the property on the implementation (no Coq model involved)."""
         r = self._run(case)
@@ -480,6 +504,8 @@ class C17(core.Check):
             if r['text'] != G.line_text(case['n'], case['items']):
                 return 'canonical token line listed as %r' % (r['text'],)
         if case['k'] == 'itext':
+            if not case['b']:
+                return None
             if r['tokens'] is None or r['text'] is None:
                 return 'grammar line could not be tokenised / listed'
             # tokenise(list(tokenise(x))) == tokenise(x)
